@@ -16,6 +16,8 @@ pub enum Prelude {
     FullWithList,
     AfterRewind,
     ReadOnly,
+    /// file-backed, filled beyond half, closed and reopened writable with a capacity option below the stored cursor
+    ReopenedSmaller,
 }
 
 struct Built<A: VArena> {
@@ -66,9 +68,38 @@ fn build_read_only<A: VArena>(cfg: &Cfg, salt: u64) -> Option<Built<A>> {
     Some(Built { arena, live })
 }
 
+/// The stored cursor lies above the capacity the arena is reopened with: every request must still be answered
+/// cleanly (nothing fits into main memory any more).
+fn build_reopened_smaller<A: VArena>(cfg: &Cfg, salt: u64) -> Option<Built<A>> {
+    let mut rng = Rng::new(salt ^ 0x5A);
+    let mut live = vec![];
+    let small;
+    {
+        let a: A = create::<A>(cfg).ok()?;
+        let room = cfg.cap - a.data_offset() as u32;
+        for _ in 0..6 {
+            let s = room / 8 + rng.below(16) as u32;
+            if let Ok(mut h) = a.alloc_bytes(s) {
+                unsafe { std::ptr::write_bytes(h.as_mut_ptr(), 0xAB, s as usize) };
+                unsafe { rarena_allocator::Buffer::detach(&mut h) };
+                live.push((rarena_allocator::Buffer::offset(&h) as u32, rarena_allocator::Buffer::capacity(&h) as u32));
+            }
+        }
+        small = (a.data_offset() as u32 + (a.allocated() as u32 - a.data_offset() as u32) / 2).max(cfg.prefix() + 8);
+        let _ = a.flush();
+    }
+    live.retain(|r| r.0 + r.1 <= small);
+    let mode = if salt % 2 == 0 { OpenMode::MapMut } else { OpenMode::MapCopy };
+    let arena: Box<A> = Box::new(reopen::<A>(cfg, mode, Some(small), false).ok()?);
+    Some(Built { arena, live })
+}
+
 fn build<A: VArena>(cfg: &Cfg, prelude: Prelude, salt: u64) -> Option<Built<A>> {
     if prelude == Prelude::ReadOnly {
         return build_read_only::<A>(cfg, salt);
+    }
+    if prelude == Prelude::ReopenedSmaller {
+        return build_reopened_smaller::<A>(cfg, salt);
     }
     let mut rng = Rng::new(salt);
     let arena: Box<A> = Box::new(create::<A>(cfg).ok()?);
@@ -87,7 +118,7 @@ fn build<A: VArena>(cfg: &Cfg, prelude: Prelude, salt: u64) -> Option<Built<A>> 
             }
         }
         Prelude::Full => unsafe { a.rewind(ArenaPosition::End(0)) },
-        Prelude::FullWithList | Prelude::ReadOnly => {
+        Prelude::FullWithList | Prelude::ReadOnly | Prelude::ReopenedSmaller => {
             // blocks of assorted sizes; every other one is released after the arena has been filled
             let mut hs = vec![];
             let mut left = room;
@@ -334,7 +365,7 @@ pub fn c04_main(args: &Args) -> i32 {
             cfgs.push(c);
         }
     }
-    let preludes: Vec<Prelude> = if huge { vec![Prelude::Full, Prelude::Half] } else { vec![Prelude::Empty, Prelude::Half, Prelude::Full, Prelude::FullWithList, Prelude::AfterRewind, Prelude::ReadOnly] };
+    let preludes: Vec<Prelude> = if huge { vec![Prelude::Full, Prelude::Half] } else { vec![Prelude::Empty, Prelude::Half, Prelude::Full, Prelude::FullWithList, Prelude::AfterRewind, Prelude::ReadOnly, Prelude::ReopenedSmaller] };
     let mut case_no = 0u64;
     for (ci, cfg0) in cfgs.iter().enumerate() {
         for &prelude in preludes.iter() {
@@ -342,6 +373,9 @@ pub fn c04_main(args: &Args) -> i32 {
             if prelude == Prelude::ReadOnly {
                 // file-backed, closed, reopened with map / map_copy_read_only: every request must be answered
                 // with ReadOnly (or InsufficientSpace) and leave the state alone — never by a store into the mapping
+                cfg = ro_cfg(cfg0);
+            }
+            if prelude == Prelude::ReopenedSmaller {
                 cfg = ro_cfg(cfg0);
             }
             if huge && prelude == Prelude::Half {
